@@ -29,14 +29,19 @@
 (*                       the key (found by TLC on this model: F17)         *)
 (*   Expected = "full" : the key must still hold what the lookup found     *)
 (*                       (closes the reload case, not the one below)       *)
-(* Known open window (finding F17, holds for every value of Expected): a   *)
-(* load registered while an INVALIDATION of the key is between its two     *)
-(* steps is not cleared and finds the key absent at its install step, so   *)
-(* it installs although the invalidation took effect after it started.     *)
-(* NoStaleInstall therefore excludes loads registered inside such a window *)
-(* (`inWindow`); NoWindowInstall states the full requirement and is        *)
-(* violated by the model of the current code - and by the code, see        *)
-(* known_findings.json.                                                    *)
+(*   RegLocked = FALSE : the in-flight record is registered without the    *)
+(*                       key's bucket lock (code before fix 1a4f8c2): a    *)
+(*                       load registered while an INVALIDATION of the key  *)
+(*                       is between its two steps is not cleared, finds    *)
+(*                       the key absent at its install step and installs   *)
+(*                       although the invalidation took effect after it    *)
+(*                       started (finding F17, for every value of          *)
+(*                       Expected): NoWindowInstall violated.  With        *)
+(*                       RegLocked = TRUE the registration is one step     *)
+(*                       under the bucket lock and NoWindowInstall holds;  *)
+(*                       the repair was checked here before the Go patch.  *)
+(* NoStaleInstall excludes loads registered inside such a window            *)
+(* (`inWindow`); NoWindowInstall states the full requirement.               *)
 (*   StaleCancels = TRUE  : evicting a node that is no longer current      *)
 (*                          clears the in-flight load -> NoDrop violated   *)
 (*                          (code before fix 7dd53de)                      *)
@@ -49,7 +54,8 @@ CONSTANTS Getters,      \* processes calling Get (load on miss)
           WriterKind,   \* Writers -> {"set", "invalidate", "evict", "stale"}   ("stale": eviction of a node that is not current)
           Outcomes,     \* subset of {"val", "err", "nf", "panic"}
           Preload,      \* TRUE: the key holds a value (50) initially
-          Expected, StaleCancels
+          Expected, StaleCancels,
+          RegLocked     \* TRUE: the in-flight record is registered inside the key's table computation (under the bucket lock)
 
 Nil == 0
 (* --algorithm LoadRace
@@ -80,7 +86,8 @@ begin
            else
               seen[self] := val;
            end if;
- start:    if infl = Nil then
+ start:    await ~(RegLocked /\ locked);
+           if infl = Nil then
               infl := self; mine := self; stale[self] := FALSE; created := created \cup {self};
               inWindow[self] := locked;
            else
@@ -187,6 +194,7 @@ lookup(self) == /\ pc[self] = "lookup"
                                 wrote >>
 
 start(self) == /\ pc[self] = "start"
+               /\ ~(RegLocked /\ locked)
                /\ IF infl = Nil
                      THEN /\ infl' = self
                           /\ mine' = [mine EXCEPT ![self] = self]
